@@ -5,7 +5,10 @@
 // optional write through the object, hold, CeaseVigil, re-summon and read back), gateway Set / Get /
 // Destroy requests, summons whose context is cancelled while they wait — interleaved with idle
 // closes (virtual time) and destroys. Forced variants park chosen summoners for 5 virtual ms at the
-// hydra.summon.* points ("A holds the wait-slot, B waits, A finishes, C arrives").
+// hydra.summon.* points ("A holds the wait-slot, B waits, A finishes, C arrives"). Scenario F5 parks
+// the slot owner at hydra.summon.beforeCreate (inside the create section) until a "release" step lets
+// it go on; while it is parked, summons whose context is already cancelled (or whose deadline runs out
+// while they wait) come and go between one or two further summons of the same name.
 //
 // Observations / oracle:
 //
@@ -52,19 +55,20 @@ const (
 	parkMs      = 5
 )
 
-var roleHook = map[string]string{"A": hookRelease, "B": hookCreate, "D": hookGot}
+// role O (scenario F5): the slot owner, parked at beforeCreate until the script's "release" step.
+var roleHook = map[string]string{"A": hookRelease, "B": hookCreate, "D": hookGot, "O": hookCreate}
 
 type step struct {
 	At     int64  `json:"at"` // virtual ms after the set-up
-	K      string `json:"k"`  // req | gwset | gwget | gwdestroy | summon
+	K      string `json:"k"`  // req | gwset | gwget | gwdestroy | summon | release (lets the role-O summoner go on)
 	Hold   int64  `json:"hold,omitempty"`
 	Write  bool   `json:"write,omitempty"`
 	Cancel int64  `json:"cancel,omitempty"` // context cancelled after ms; -1 = already cancelled
-	Role   string `json:"role,omitempty"`   // A: parked at beforeRelease, B: at beforeCreate, D: at gotWaiter (5 virtual ms, first hit)
+	Role   string `json:"role,omitempty"`   // A: parked at beforeRelease, B: at beforeCreate, D: at gotWaiter (5 virtual ms, first hit); O: at beforeCreate until the "release" step
 }
 
 type script struct {
-	Scenario string `json:"scenario"` // free | F1..F4
+	Scenario string `json:"scenario"` // free | F1..F5
 	InMem    bool   `json:"inmem"`
 	Idle     int64  `json:"idle"`  // s
 	Start    string `json:"start"` // fresh (never created) | cold (created, then closed by idle) | warm (open)
@@ -168,6 +172,71 @@ func genForced(r *rand.Rand, idx int) script {
 	return sc
 }
 
+// genOwner, scenario F5: the slot owner O is parked inside the create section (beforeCreate) until the
+// "release" step. Meanwhile: 0-2 summons that queue up behind it, (a) a summon that gives up on its
+// context while the slot is taken, 0-2 further summons, optionally (a) again and more summons; then the
+// owner is released. (a) is one of: context already cancelled; a deadline that runs out while the summon
+// waits for the slot (it only notices at the next wake-up); a deadline that runs out while the summon
+// is parked at gotWaiter, i.e. it finds the slot taken and its context done.
+func genOwner(r *rand.Rand, idx int) script {
+	sc := script{Scenario: "F5", Idle: int64(1 + r.IntN(3))}
+	switch idx % 3 {
+	case 0:
+		sc.Start, sc.InMem = "fresh", r.IntN(2) == 0
+	case 1: // the owner has a storage file to load
+		sc.Start, sc.InMem = []string{"cold", "cold0"}[r.IntN(2)], false
+	default:
+		sc.Start, sc.InMem = []string{"fresh", "cold", "cold0"}[r.IntN(3)], r.IntN(2) == 0
+	}
+	at := int64(100)
+	sc.Steps = append(sc.Steps, writerStep(r, at, "O"))
+	at += 2
+	others := func(n int) {
+		for ; n > 0; n-- {
+			switch r.IntN(4) {
+			case 0:
+				sc.Steps = append(sc.Steps, step{At: at, K: "req", Hold: int64(r.IntN(3)) * 100})
+			case 1:
+				sc.Steps = append(sc.Steps, step{At: at, K: "summon"})
+			default:
+				sc.Steps = append(sc.Steps, writerStep(r, at, ""))
+			}
+			at += int64(r.IntN(2))
+		}
+		at += 2
+	}
+	giveUp := func() {
+		k := "summon"
+		if r.IntN(4) == 0 {
+			k = "req"
+		}
+		switch r.IntN(4) {
+		case 0: // deadline runs out while it waits for the slot
+			sc.Steps = append(sc.Steps, step{At: at, K: k, Cancel: int64(1 + r.IntN(3))})
+		case 1: // deadline runs out while it is parked before it looks at the slot
+			sc.Steps = append(sc.Steps, step{At: at, K: k, Cancel: int64(1 + r.IntN(parkMs-1)), Role: "D"})
+		default:
+			sc.Steps = append(sc.Steps, step{At: at, K: k, Cancel: -1})
+		}
+		at += parkMs + 3
+	}
+	before, mid := r.IntN(3), r.IntN(3)
+	if before+mid == 0 {
+		mid = 1
+	}
+	others(before)
+	giveUp()
+	others(mid)
+	if r.IntN(2) == 0 {
+		giveUp()
+		others(r.IntN(3))
+	}
+	at += int64(r.IntN(3)) * 10
+	sc.Steps = append(sc.Steps, step{At: at, K: "release"})
+	tail(r, &sc, at+30+int64(r.IntN(2))*400)
+	return sc
+}
+
 func genFree(r *rand.Rand) script {
 	sc := script{Scenario: "free", InMem: r.IntN(2) == 0, Idle: int64(1 + r.IntN(2)), Start: []string{"fresh", "cold", "warm"}[r.IntN(3)]}
 	actors := 3 + r.IntN(6)
@@ -215,6 +284,12 @@ func fixedCases() []script {
 			script{Scenario: "F1", InMem: inmem, Idle: 2, Start: "cold", Steps: []step{{At: 100, K: "summon", Cancel: -1, Role: "A"}, {At: 101, K: "req", Write: true, Hold: 200, Role: "B"}, {At: 107, K: "req", Write: true, Hold: 200}, {At: 500, K: "gwget"}}},
 			script{Scenario: "F3", InMem: inmem, Idle: 2, Start: "warm0", Steps: []step{{At: 0, K: "req", Hold: 3000}, {At: 100, K: "gwdestroy"}, {At: 200, K: "summon", Cancel: 1000, Role: "A"}, {At: 300, K: "gwset", Role: "B"}, {At: 301, K: "gwset", Role: "B"}, {At: 302, K: "gwset", Role: "B"}, {At: 3007, K: "gwset"}, {At: 3030, K: "gwget"}}},
 			script{Scenario: "F2", InMem: inmem, Idle: 2, Start: "warm0", Steps: []step{{At: 0, K: "req", Hold: 45000}, {At: 100, K: "gwdestroy"}, {At: 200, K: "summon"}, {At: 300, K: "req", Write: true, Hold: 100, Role: "B"}, {At: 301, K: "req", Write: true, Hold: 100, Role: "B"}, {At: 302, K: "req", Write: true, Hold: 100, Role: "B"}, {At: 31000, K: "req", Write: true, Hold: 100}, {At: 46000, K: "gwget"}}},
+			// F5: owner parked in the create section; a cancelled summon, then a newcomer
+			script{Scenario: "F5", InMem: inmem, Idle: 2, Start: "fresh", Steps: []step{{At: 100, K: "gwset", Role: "O"}, {At: 105, K: "summon", Cancel: -1}, {At: 110, K: "gwset"}, {At: 120, K: "release"}, {At: 150, K: "gwget"}}},
+			// F5: (file to load when persistent) a waiter before, the cancelled summon twice, newcomers between and after
+			script{Scenario: "F5", InMem: inmem, Idle: 2, Start: "cold", Steps: []step{{At: 100, K: "req", Write: true, Hold: 200, Role: "O"}, {At: 102, K: "gwset"}, {At: 105, K: "summon", Cancel: -1}, {At: 110, K: "req", Write: true, Hold: 100}, {At: 113, K: "summon", Cancel: -1}, {At: 116, K: "gwset"}, {At: 125, K: "release"}, {At: 600, K: "gwget"}}},
+			// F5: a deadline that runs out while waiting for the slot, one that runs out before the slot is looked at
+			script{Scenario: "F5", InMem: inmem, Idle: 2, Start: "fresh", Steps: []step{{At: 100, K: "gwset", Role: "O"}, {At: 102, K: "summon", Cancel: 2}, {At: 106, K: "summon", Cancel: 3, Role: "D"}, {At: 115, K: "gwset"}, {At: 125, K: "release"}, {At: 160, K: "gwget"}}},
 		)
 	}
 	return out
@@ -371,19 +446,27 @@ func runScript(t *testing.T, sc script) (out outcome) {
 			}
 			return nil
 		}
-		park := func(role, hook string) {
+		ownerGo := make(chan struct{}) // closed by the "release" step: the role-O summoner goes on
+		var ownerOnce sync.Once
+		releaseOwner := func() { ownerOnce.Do(func() { close(ownerGo) }) }
+		park := func(hook string) {
 			verifhook.Set(hook, func(...any) {
 				s := stepOf(int64(goid()))
-				if s == nil || s.st.Role != role || !s.parked.CompareAndSwap(false, true) {
+				if s == nil || roleHook[s.st.Role] != hook || !s.parked.CompareAndSwap(false, true) {
 					return
 				}
+				role := s.st.Role
 				log.add(fmt.Sprintf("%d ms %s#%d (role %s) parked at %s", now(), s.st.K, s.idx, role, hook))
-				time.Sleep(parkMs * time.Millisecond)
+				if role == "O" {
+					<-ownerGo
+				} else {
+					time.Sleep(parkMs * time.Millisecond)
+				}
 				log.add(fmt.Sprintf("%d ms %s#%d (role %s) leaves %s", now(), s.st.K, s.idx, role, hook))
 			})
 		}
-		for role, hook := range roleHook {
-			park(role, hook)
+		for _, hook := range []string{hookGot, hookCreate, hookRelease} {
+			park(hook)
 		}
 		defer func() {
 			for _, h := range []string{hookGot, hookCreate, hookRelease, noteCreated, noteClosed} {
@@ -513,6 +596,9 @@ func runScript(t *testing.T, sc script) (out outcome) {
 					return sw
 				}
 				switch s.st.K {
+				case "release":
+					log.add(fmt.Sprintf("%d ms release#%d: the owner may go on", now(), s.idx))
+					releaseOwner()
 				case "summon":
 					if sw := summon(ctx); sw != nil {
 						sw.BeginVigil()
@@ -687,6 +773,7 @@ func runScript(t *testing.T, sc script) (out outcome) {
 			checkObjects("quiescent point")
 			mu.Unlock()
 		}
+		releaseOwner() // a script without a "release" step
 		// run out: every request returns (a summon may wait 30 s twice), idle closes happen
 		for k := 0; k < 100; k++ {
 			time.Sleep(time.Second)
@@ -719,21 +806,34 @@ func runScript(t *testing.T, sc script) (out outcome) {
 			out.Nontrivial = true // the name went through more than one instance
 		}
 		placed := map[string]bool{}
+		gaveUp := 0
 		for _, s := range steps {
 			count("steps:"+s.st.K, 1)
 			if s.st.Role != "" {
 				if s.parked.Load() {
 					placed[s.st.Role] = true
-					count("parked_"+roleHook[s.st.Role], 1)
+					if s.st.Role == "O" {
+						count("owner_parked_in_create_section_until_released", 1)
+					} else {
+						count("parked_"+roleHook[s.st.Role], 1)
+					}
 				} else {
 					count("role_"+s.st.Role+"_never_reached_its_point", 1)
 				}
 			}
 			if strings.Contains(s.err, "context") {
 				count("summons_ended_by_context", 1)
+				gaveUp++
 			}
 		}
-		if sc.Scenario != "free" {
+		if sc.Scenario == "F5" {
+			if placed["O"] && gaveUp > 0 {
+				out.Nontrivial = true
+				count("F5_summons_given_up_on_context", int64(gaveUp))
+			} else if out.Inconclusive == "" && len(out.Sigs) == 0 {
+				out.Inconclusive = fmt.Sprintf("forced schedule F5: owner parked at %s: %v, summons ended by their context: %d", hookCreate, placed["O"], gaveUp)
+			}
+		} else if sc.Scenario != "free" {
 			if placed["B"] {
 				out.Nontrivial = true
 			} else if out.Inconclusive == "" && len(out.Sigs) == 0 {
@@ -789,7 +889,11 @@ type spec struct {
 	Fixed   bool     `json:"fixed,omitempty"`
 	Scripts []script `json:"scripts,omitempty"`
 	Repeats int      `json:"repeats,omitempty"`
+	OFrom   int      `json:"ofrom,omitempty"` // scenario F5 (genOwner) case indices
+	OTo     int      `json:"oto,omitempty"`
 }
+
+const ownerBase = 1 << 20 // PRNG stream offset of the F5 cases (keeps the streams of the other cases as they were)
 
 func gen(c *rig.Check, i int) script {
 	r := c.Rand(i)
@@ -838,6 +942,9 @@ func child(t *testing.T, c *rig.Check) {
 		for i := sp.From; i < sp.To; i++ {
 			cases = append(cases, gen(c, i))
 		}
+		for i := sp.OFrom; i < sp.OTo; i++ {
+			cases = append(cases, genOwner(c.Rand(ownerBase+i), i))
+		}
 		for _, sc := range cases {
 			rec(runScript(t, sc), sc)
 		}
@@ -853,7 +960,7 @@ func TestCheck(t *testing.T) {
 		child(t, c)
 		return
 	}
-	c.Rule = "schedules on one swamp name in a synctest bubble: half forced (scenarios F1-F4: a summoner parked 5 virtual ms at hydra.summon.beforeRelease / beforeCreate / gotWaiter so that 'A holds the wait-slot, B waits, A finishes, C arrives' happens with the swamp absent from memory), half free (3-8 actors issuing handler-protocol requests with holds and writes, gateway Set/Get/Destroy, summons with cancelled contexts, at instants on a 500 ms grid that includes the idle-close ticks). Non-trivial: forced = the waiter behind the slot holder was parked at beforeCreate; free = the name went through at least two instances. Distinct = distinct script JSON"
+	c.Rule = "schedules on one swamp name in a synctest bubble: half forced (scenarios F1-F4: a summoner parked 5 virtual ms at hydra.summon.beforeRelease / beforeCreate / gotWaiter so that 'A holds the wait-slot, B waits, A finishes, C arrives' happens with the swamp absent from memory), half free (3-8 actors issuing handler-protocol requests with holds and writes, gateway Set/Get/Destroy, summons with cancelled contexts, at instants on a 500 ms grid that includes the idle-close ticks). On top of these, scenario F5 (96 / 2048 scripts): the slot owner is parked at beforeCreate (inside the create section, swamp absent from memory, with and without a storage file to load) until a release step; meanwhile 0-2 summons queue up, a summon gives up on its context (already cancelled / deadline runs out while it waits / deadline runs out before it looks at the slot), 0-2 further summons arrive, optionally the same again; then the owner goes on. Non-trivial: forced F1-F4 = the waiter behind the slot holder was parked at beforeCreate; F5 = the owner was parked at beforeCreate and at least one summon ended on its context; free = the name went through at least two instances. Distinct = distinct script JSON"
 	c.Assumptions = []string{
 		"an instance is 'live' from its construction until its close callback fires (notes) resp. while its closing flag is clear (hook-free form)",
 		"duplicate close callbacks for one object make the notes counter under-count, never over-count",
@@ -873,9 +980,9 @@ func TestCheck(t *testing.T) {
 			specs = append(specs, spec{Scripts: []script{*w.Witness.Script}, Repeats: 5})
 		}
 	} else {
-		n, ch := c.N(400, 8000), c.N(32, 256)
+		n, ch, m := c.N(400, 8000), c.N(32, 256), c.N(96, 2048)
 		for i := 0; i < ch; i++ {
-			specs = append(specs, spec{From: i * n / ch, To: (i + 1) * n / ch, Fixed: i == 0})
+			specs = append(specs, spec{From: i * n / ch, To: (i + 1) * n / ch, Fixed: i == 0, OFrom: i * m / ch, OTo: (i + 1) * m / ch})
 		}
 	}
 	res := c.Fanout(specs, rig.FanoutOpts{Par: 16, Timeout: 6 * time.Minute})
